@@ -456,6 +456,22 @@ func (in *Interp) rtypeMethod(name string, rt RT, args []Value) Value {
 		}
 	case "Comparable":
 		return mkBool(types.Comparable(t))
+	case "ConvertibleTo", "AssignableTo", "Implements":
+		itf, ok := args[0].(Iface)
+		if !ok || itf.T == nil {
+			in.rpanic("reflect: nil type passed to Type." + name)
+		}
+		u := itf.V.(RT).T
+		switch name {
+		case "ConvertibleTo":
+			return mkBool(types.ConvertibleTo(t, u))
+		case "AssignableTo":
+			return mkBool(types.AssignableTo(t, u))
+		}
+		if iface, ok := u.Underlying().(*types.Interface); ok {
+			return mkBool(types.Implements(t, iface))
+		}
+		in.rpanic("reflect: non-interface type passed to Type.Implements")
 	case "NumMethod":
 		return goInt(types.NewMethodSet(t).Len())
 	}
